@@ -128,12 +128,13 @@ REJECT = [("CfgMC_asis_selfloop.cfg", "FallThrough"), ("CfgMC_asis_hist.cfg", "N
 def generators(quick):
     allh = c18.G_DELAY + c18.G_FIXED + c18.G_VAR
     if quick:
-        return [("CfgGen_unit_quick.cfg", "unit", c18.G_DELAY + c18.G_FIXED + c18.G_VAR[:2], "one", None, 1),
-                ("CfgGen_var_quick.cfg", "var", c18.G_VAR, "one", None, 1),
-                ("CfgGen_links_quick.cfg", "links", allh, "one", None, 1),
-                ("CfgGen_wide_quick.cfg", "wide", c18.G_VAR[:3] + c18.G_FIXED[:2], "one", None, 3),
-                ("CfgSim.cfg", "sim", c18.G_VAR, "one", "num=60", 1),
-                ("CfgSimD.cfg", "simd", c18.G_DELAY, "one", "num=60", 1)]
+        # quick replays every 2nd (4th) behaviour of the exhaustive generators, the offset rotating with the seed
+        return [("CfgGen_unit_quick.cfg", "unit", c18.G_DELAY + c18.G_FIXED + c18.G_VAR[:2], "one", None, 2),
+                ("CfgGen_var_quick.cfg", "var", c18.G_VAR, "one", None, 2),
+                ("CfgGen_links_quick.cfg", "links", allh, "one", None, 2),
+                ("CfgGen_wide_quick.cfg", "wide", c18.G_VAR[:3] + c18.G_FIXED[:2], "one", None, 4),
+                ("CfgSim.cfg", "sim", c18.G_VAR, "one", "num=40", 1),
+                ("CfgSimD.cfg", "simd", c18.G_DELAY, "one", "num=40", 1)]
     return [("CfgGen_unit.cfg", "unit", c18.G_DELAY + c18.G_FIXED + c18.G_VAR[:2], "one", None, 1),
             ("CfgGen_var.cfg", "var", c18.G_VAR, "one", None, 1),
             ("CfgGen_links.cfg", "links", allh, "one", None, 1),
@@ -145,7 +146,7 @@ def generators(quick):
 def sweep_jobs(ctx, quick):
     isas = sorted(c18.ISAS)
     nbuf = 3 if quick else 12
-    size = 24 if quick else 48
+    size = 20 if quick else 48
     return [(isa, ctx.seed, nbuf, size, 1000000 * (i + 1), True) for i, isa in enumerate(isas)]
 
 
@@ -153,7 +154,7 @@ H_ISAS = ["x86", "x64", "sparc", "mips", "mipsle", "sh2", "rv32i", "armv7", "ppc
 
 
 def history_jobs(ctx, quick):
-    ntr = 10 if quick else 150
+    ntr = 8 if quick else 150
     jobs = [(isa, ctx.seed, ntr, 14, 500000000 + 1000000 * i, False) for i, isa in enumerate(H_ISAS)]
     jobs += [(isa, ctx.seed, ntr, 10, 700000000 + 1000000 * i, True) for i, isa in enumerate(["x86", "x64", "z80"])]
     return jobs
